@@ -1,4 +1,4 @@
 SPECIFICATION Spec
-CONSTANTS MaxOps = 2 Depth = 3 NViews = 1 TangBelow = 1
-INVARIANTS InvFactor InvTrivialMC InvReportsTrivial InvTof InvSetUp InvChain
+CONSTANTS MaxOps = 2 Depth = 3 NViews = 1 TangBelow = 1 ModAt = {1}
+INVARIANTS InvFactor InvTrivialMC InvReportsTrivial InvTof InvSetUp InvChain InvCurrent
 CHECK_DEADLOCK FALSE
